@@ -284,6 +284,12 @@ def run(ctx):
             q = permuted(rng, inp)
             if q:
                 inputs.append(q)
+    # several arguments, some of them (large) directories, ties across arguments: PathId order is
+    # the order NAMED, whatever finishes walking first
+    for k in range(4 if quick else 40):
+        inp = mu.args_input(rng, opts_choices=OPTS)
+        mu.write_input(inp, os.path.join(scratch, "args%04d" % k), rng.randrange(1000))
+        inputs.append(inp)
     fams = mu.fixture_families()
     if not fams:
         ctx.note("no utmp/evtx/journal fixtures found under %s/logs: only text sources are exercised" % vlib.REPO)
@@ -406,6 +412,7 @@ def run(ctx):
         inputs_with_cross_source_ties=sum(1 for c, i in tie_info if c), inputs_with_intra_source_ties=sum(1 for c, i in tie_info if i),
         inputs_with_emptied_sources=sum(1 for inp in gen_inputs if inp["window"]),
         inputs_as_directory=sum(1 for inp in gen_inputs if inp["as_dir"]),
+        inputs_with_directory_and_file_arguments=sum(1 for inp in gen_inputs if inp.get("arg_groups")),
         inputs_with_utmp_source_last_record_not_newest=sum(1 for inp in gen_inputs if mu.describe(inp)["physically_last_record_not_newest"]),
         sub_microsecond_inputs=sum(1 for inp in gen_inputs if inp.get("subus")),
         inputs_with_sub_microsecond_inversions=sum(1 for inp in gen_inputs if mu.subus_inversions(inp) > 0),
